@@ -789,7 +789,9 @@ func opHandlerBind(env *LEnv, args *LVal) *LVal {
 			return env.Errorf("binding type is not a symbol: %v", sym.Type)
 		}
 	}
-	if len(args.Cells) == 0 {
+	if len(forms) == 0 {
+		// An empty body has the value of an empty progn.  (The binding list
+		// is args.Cells[0], so this is the test for "no body forms".)
 		return Nil()
 	}
 	var val *LVal
